@@ -382,7 +382,12 @@ CLEANUP:
 	if (basis)
 	{
 		if (writebasis)
-			rval = mpq_QSwrite_basis (p_mpq, 0, writebasis);
+		{
+			/* do not let a successful basis write hide an earlier failure */
+			int wrval = mpq_QSwrite_basis (p_mpq, 0, writebasis);
+			if (!rval)
+				rval = wrval;
+		}
 	}
 	mpq_QSfree_basis (basis);
 	mpq_QSfree_prob (p_mpq);
